@@ -349,6 +349,10 @@ class FakeSocket:
             raise OSError('send on closed socket')
         n = data.count(b'\r\n')
         op = ctl.before('send', self.chan_out, k=self.sent, n_msgs=n, data=data.decode('utf-8', 'replace'))
+        if self.closed:
+            # closed by another thread while this one was about to send (forced schedules hold a thread exactly here)
+            ctl.after(op, failed=True)
+            raise OSError('send on closed socket')
         self.sent += 1
         with self.net.cond:
             if not self.peer.closed:
@@ -494,6 +498,13 @@ class Session:
                     ctl.lock.notify_all()
 
         def pt_join(th, timeout=None):
+            if timeout is not None:
+                # a join with a time limit: the real semantics (it may return while the thread is still running); recorded as
+                # an operation that does not wait
+                op = ctl.before('th_join', th._vkey, nonblock=True, timeout=float(timeout))
+                real_join(th, timeout)
+                ctl.after(op, expired=real_alive(th))
+                return
             op = ctl.before('th_join', th._vkey)
             while True:
                 real_join(th, 0.1)
